@@ -177,13 +177,15 @@ theorem sync_keeps_both (c other : Cache) :
    syncCache_hasPeer_right other c, syncCache_hasAddr_right other c⟩
 
 /-- The flush without clean-up writes exactly that merge of the memory with what was loaded from the file. -/
-theorem flush_writes_merge (s : Sys) (i : Nat) (ch : List Nat) (hi : i < s.ws.length) :
+theorem flush_writes_merge (s : Sys) (i : Nat) (ch : List Nat) (hi : i < s.ws.length)
+    (hd : (getW s.ws i).disabled = false) :
     (run s (flushOps i false ch)).file =
       .data (match load s.cfg ch s.now s.file with
         | some d => syncCache (getW s.ws i).mem d
         | none => (getW s.ws i).mem) := by
-  simp only [flushOps, run, step, length_modAt, hi, if_true, commitData]
+  simp only [flushOps, run, step, length_modAt, hi, commitData]
   rw [getW_modAt _ _ _ hi]
+  simp only [hd]
   cases load s.cfg ch s.now s.file <;> simp
 
 /-- **Save then load is the identity apart from what clean-up removes** (the serialisation itself is abstract):
@@ -226,6 +228,13 @@ theorem step_file_loadable {s : Sys} {op : Op} (hop : op.isWriterOp = true) (h :
   | halfWrite i =>
     simp only [step, writeAtomic, Bool.true_or, if_true]
     exact h
+  | rebuild i first disabled =>
+    simp only [step]
+    split
+    · split
+      · simp
+      · exact h
+    · exact h
 
 /-- …and never removes or garbles an existing cache file -/
 theorem step_file_data {s : Sys} {op : Op} (hop : op.isWriterOp = true) (h : ∃ c, s.file = .data c) :
@@ -250,6 +259,35 @@ theorem step_file_data {s : Sys} {op : Op} (hop : op.isWriterOp = true) (h : ∃
   | halfWrite i =>
     simp only [step, writeAtomic, Bool.true_or, if_true]
     exact h
+  | rebuild i first disabled =>
+    simp only [step]
+    split
+    · split
+      · exact ⟨_, rfl⟩
+      · exact h
+    · exact h
+
+/-- A store has one effective location: rebuilding it (through `new` or `new_from_peers_args`, whatever the
+overrides) leaves the file exactly as it was unless `first` asks for an empty cache, and a flush by the rebuilt
+store reads and replaces that same file; a store with cache writing disabled (`local`) never changes it. -/
+theorem rebuild_same_file (s : Sys) (i : Nat) (dis : Bool) (wc : Bool) (ch : List Nat) (hi : i < s.ws.length) :
+    (step s (.rebuild i false dis)).file = s.file ∧
+    (step s (.rebuild i true dis)).file = .data [] ∧
+    (run (step s (.rebuild i false true)) (flushOps i wc ch)).file = s.file ∧
+    (run (step s (.rebuild i false false)) (flushOps i false ch)).file =
+      .data (match load s.cfg ch s.now s.file with | some d => syncCache [] d | none => []) := by
+  refine ⟨by simp [step, hi], by simp [step, hi], ?_, ?_⟩
+  · simp only [flushOps, run, step, hi, if_true, length_modAt]
+    rw [getW_modAt _ _ _ (by simpa [length_modAt] using hi)]
+    rw [getW_modAt _ _ _ hi]
+    simp
+  · have h1 : i < (step s (.rebuild i false false)).ws.length := by simp [step, hi, length_modAt]
+    have h2 : (getW (step s (.rebuild i false false)).ws i).disabled = false := by
+      simp only [step, hi, if_true]; rw [getW_modAt _ _ _ hi]
+    rw [flush_writes_merge _ i ch h1 h2]
+    simp only [step, hi, if_true]
+    rw [getW_modAt _ _ _ hi]
+    simp
 
 /-- **Concurrent flushes leave a loadable file.** The file is an atomic register (`AtomicWriteFile` + rename,
 read off the source by the translator as `writeAtomic`). For any number of stores and ANY interleaving of their
@@ -281,24 +319,25 @@ theorem concurrent_flush_loadable (s : Sys) (ops : List Op) (hops : ∀ op ∈ o
     exact (run_inv ops s hinv hok).2
 
 /-- every commit half of a flush, and every raw write, by an existing store leaves a cache in the file -/
-theorem commit_leaves_cache (s : Sys) (i : Nat) (wc : Bool) (ch : List Nat) (hi : i < s.ws.length) :
+theorem commit_leaves_cache (s : Sys) (i : Nat) (wc : Bool) (ch : List Nat) (hi : i < s.ws.length)
+    (hd : (getW s.ws i).disabled = false) :
     (∃ c, (step s (.flushCommit i wc ch)).file = .data c) ∧ (∃ c, (step s (.write i)).file = .data c) := by
-  simp [step, hi]
+  simp [step, hi, hd]
 
 /-- **A corrupt or foreign file is ignored.** `load_cache_data` fails on it (it does not crash: the model is
 total), and a flush over it writes exactly the store's own memory (cleaned if asked) — the same as over a
 missing file — and leaves a loadable file. -/
 theorem corrupt_ignored (s : Sys) (i : Nat) (wc : Bool) (ch : List Nat) (hi : i < s.ws.length)
-    (hf : s.file = .garbage ∨ s.file = .absent) :
+    (hd : (getW s.ws i).disabled = false) (hf : s.file = .garbage ∨ s.file = .absent) :
     load s.cfg ch s.now s.file = none ∧
     (run s (flushOps i wc ch)).file =
       .data (if wc then removeOldest s.cfg ch s.now (cleanup s.cfg ch s.now (getW s.ws i).mem) else (getW s.ws i).mem) := by
   have hl : load s.cfg ch s.now s.file = none := by
     rcases hf with h | h <;> simp [h, load]
   refine ⟨hl, ?_⟩
-  simp only [flushOps, run, step, length_modAt, hi, if_true, commitData]
+  simp only [flushOps, run, step, length_modAt, hi, commitData]
   rw [getW_modAt _ _ _ hi]
-  simp [hl]
+  simp [hl, hd]
 
 /-! ## Non-vacuity and concrete instances -/
 
@@ -316,7 +355,7 @@ example : craft [.p2p 3, .ws, .tcp 5, .other 1, .ip4 9] = some [.ip4 9, .tcp 5, 
 
 -- three peers into a cache limited to two: the oldest is evicted
 example : (run (Sys.init cfg22 1) [.tick 1, .add 0 (q 1 1 1) [], .tick 1, .add 0 (q 1 1 2) [], .tick 1, .add 0 (q 1 1 3) []]).ws
-    = [⟨[(2, [⟨q 1 1 2, 1, 0, 1000002⟩]), (3, [⟨q 1 1 3, 1, 0, 1000003⟩])], none⟩] := by decide
+    = [⟨[(2, [⟨q 1 1 2, 1, 0, 1000002⟩]), (3, [⟨q 1 1 3, 1, 0, 1000003⟩])], none, false⟩] := by decide
 -- two failures against one success: dropped by clean-up; an expired address likewise
 example : cleanup cfg22 [] 50 [(1, [⟨q 1 1 1, 1, 2, 40⟩]), (2, [⟨q 1 1 2, 1, 1, 40⟩])] = [(2, [⟨q 1 1 2, 1, 1, 40⟩])] := by decide
 example : cleanup cfg22 [] 200 [(1, [⟨q 1 1 1, 1, 0, 100⟩]), (2, [⟨q 1 1 2, 1, 0, 101⟩])] = [(2, [⟨q 1 1 2, 1, 0, 101⟩])] := by decide
@@ -352,6 +391,7 @@ end SafeNet.Props.C18
 #print axioms SafeNet.Props.C18.sync_keeps_both
 #print axioms SafeNet.Props.C18.flush_writes_merge
 #print axioms SafeNet.Props.C18.save_load_identity_mod_cleanup
+#print axioms SafeNet.Props.C18.rebuild_same_file
 #print axioms SafeNet.Props.C18.concurrent_flush_loadable
 #print axioms SafeNet.Props.C18.commit_leaves_cache
 #print axioms SafeNet.Props.C18.corrupt_ignored
